@@ -73,7 +73,7 @@ class Sim:
         if start is None:
             return out
         node = start
-        for _ in range(64):
+        for _ in range(128):
             out.append(node)
             node = node.right
             if node is start:
@@ -87,7 +87,7 @@ class Sim:
         def rec(start, depth):
             for n in self.ring(start):
                 out.append((n, depth))
-                if len(out) > 64:
+                if len(out) > 128:
                     raise AssertionError('forest larger than any reachable heap (cycle?)')
                 if n.child is not None:
                     rec(n.child, depth + 1)
@@ -312,6 +312,76 @@ def bfs(ctx, variant, res):
     return states
 
 
+# ---- larger heaps, from a non-initial state -------------------------------------------------------------------------
+def big_prefix(kind, n):
+    """n pushes of distinct keys (worst first for a max-heap) and one pop: one consolidated forest with trees of degree
+    up to log2(n - 1) - the shapes that cascading cuts need and that <= 6 live items cannot have."""
+    keys = [10 * i for i in range(n)]
+    if kind == 'max':
+        keys = [-k for k in keys]
+    return tuple(('push', k) for k in keys) + (('pop',),)
+
+
+def big_enabled(sim):
+    ops = [('pop',)] if sim.model else []
+    live = [n for n, _ in sim.walk()]
+    if sim.model:
+        best = sim.best()
+        newbest = best - 1 if sim.kind == 'min' else best + 1
+        for pos in range(len(live)):
+            ops.append(('rem', pos))
+            ops.append(('dec', pos, newbest))
+    return ops
+
+
+def _expand_big_chunk(a):
+    variant, hists = a
+    out = []
+    for hist in hists:
+        s, bad = build(variant, hist)
+        assert bad is None
+        for op in big_enabled(s):
+            fail, canon = step(variant, hist, op)
+            out.append((hist + (op,), fail, h(canon) if canon is not None else None))
+    return out
+
+
+def big_bfs(ctx, kind, itemmode, n, maxdepth, res):
+    variant = (kind, itemmode, (), 10 ** 6)
+    prefix = big_prefix(kind, n)
+    start, bad = build(variant, prefix)
+    if bad:
+        res.fail(classify(variant, prefix[-1], bad[0]), {'variant': list(variant), 'history': [list(o) for o in prefix]}, bad[1], order=0)
+        return
+    seen = {h(start.canon())}
+    frontier = [prefix]
+    states, transitions, depth = 1, 0, 0
+    while frontier and depth < maxdepth:
+        nchunks = max(1, min(len(frontier), ctx.workers * 4))
+        results = ctx.map(_expand_big_chunk, [(variant, frontier[i::nchunks]) for i in range(nchunks)])
+        merged = sorted(itertools.chain.from_iterable(results), key=lambda r: repr(r[0]))
+        nxt = []
+        for hist, fail, ck in merged:
+            transitions += 1
+            if fail:
+                res.fail(fail['key'], {'variant': list(variant), 'history': [list(o) for o in hist]}, fail['detail'],
+                         order=10 ** 8 + len(hist) * 10 ** 6 + transitions)
+                continue
+            if ck not in seen:
+                seen.add(ck)
+                nxt.append(hist)
+                states += 1
+        frontier = nxt
+        depth += 1
+    res.states += states
+    res.transitions += transitions
+    res.traces += transitions
+    res.evaluations += transitions
+    res.outcomes |= seen
+    res.extra.setdefault('per_variant', {})[f'{kind}/{itemmode}/after {n} pushes and a pop'] = \
+        f'states={states} transitions={transitions} depth={depth} (depth-bounded: remove / decrease-to-new-minimum / pop only)'
+
+
 # ---- smallest / largest ------------------------------------------------------------------------------------------
 def helper_cases(tier):
     L = 5 if tier == 'quick' else 6
@@ -366,6 +436,11 @@ def run(ctx):
     res = Result()
     for variant in _variants(ctx.tier):
         bfs(ctx, variant, res)
+    q = ctx.tier == 'quick'
+    for kind, itemmode, n, d in ((('min', 'plain', 9, 4), ('max', 'plain', 9, 4), ('min', 'keyfn', 17, 3)) if q else
+                                 (('min', 'plain', 9, 6), ('max', 'plain', 9, 6), ('min', 'keyfn', 17, 4), ('max', 'keyfn', 17, 4),
+                                  ('min', 'plain', 33, 3))):
+        big_bfs(ctx, kind, itemmode, n, d, res)
     hr = run_sharded(ctx, __name__, '_helper_shard', ctx.workers)
     res.extra['helper_cases'] = hr.evaluations
     res.merge(hr)
